@@ -102,6 +102,11 @@ def pair_cmds(x, y):
             {"op": "parse", "cif": "q2", "text": "#\\#CIF_2.0\ndata_p\nloop_ %s %s\n1 2\n" % (nx, ny), "errors": "accept"},
             {"op": "parse", "cif": "q3", "text": "#\\#CIF_2.0\ndata_%s\n_a 1\ndata_%s\n_b 2\n" % (x, y), "errors": "accept"},
             {"op": "parse", "cif": "q4", "text": "#\\#CIF_2.0\ndata_p\nsave_%s\n_a 1\nsave_\nsave_%s\n_b 2\nsave_\n" % (x, y), "errors": "accept"},
+            # copies of a table match keys like the table itself: a clone, and the copy a packet keeps
+            {"op": "value_create", "v": "u", "kind": 3}, {"op": "value_op", "v": "u", "f": "set_key", "key": x},
+            {"op": "value_op", "v": "u", "f": "clone", "out": "u2"}, {"op": "value_op", "v": "u2", "f": "get_key", "key": y}, {"op": "value_op", "v": "u2", "f": "get_key", "key": x},
+            {"op": "packet_create", "p": "pp", "names": ["_t"]}, {"op": "packet_op", "p": "pp", "f": "set", "name": "_t", "arg": "u"},
+            {"op": "packet_op", "p": "pp", "f": "get", "name": "_t", "out": "r9"}, {"op": "value_op", "v": "r9", "f": "get_key", "key": y},
             {"op": "reset"}]
 
 
@@ -178,7 +183,8 @@ def c09(tier, replay=None):
                    "kfound": o[16].get("rc") == 0, "kspell": (keys == [y]) if unicodedata.normalize("NFC", x) == unicodedata.normalize("NFC", y) else True}
             errs = lambda q: [e.get("code") for e in q.get("log", []) if e.get("cb") == "error"]
             rec.update(psdup=errs(o[19]) == [41], psnone=errs(o[19]) == [], pldup=errs(o[20]) == [41], plnone=errs(o[20]) == [] and o[20].get("rc") == 0,
-                       pbdup=errs(o[21]) == [11], pbnone=errs(o[21]) == [], pfdup=errs(o[22]) == [21], pfnone=errs(o[22]) == [])
+                       pbdup=errs(o[21]) == [11], pbnone=errs(o[21]) == [], pfdup=errs(o[22]) == [21], pfnone=errs(o[22]) == [],
+                       kcfound=o[26].get("rc") == 0, kcself=o[27].get("rc") == 0, kpfound=o[31].get("rc") == 0)
             recs.append(rec); owners.append(("pair", x, y, nx, ny))
     # idempotence needs a second normalisation: batch it
     norms = list({o[3] for o in owners if o[0] == "pair"} | {o[4] for o in owners if o[0] == "pair"})
